@@ -5,7 +5,7 @@
    destination hi; lo], timestamp, source data, CRC-16/CCITT-FALSE. *)
 From Coq Require Import ZArith List Lia.
 From SP Require Import Base.Result Base.Bytes Base.Crc16 Model.SpacePacket Spec.SpacePacketSpec
-  Model.PusTc Model.PusTm Spec.PusSpec Proofs.PusTmProofs.
+  Model.PusTc Model.PusTm Spec.PusSpec Proofs.PusTmProofs Model.PusTmHist Proofs.PusHeaderRefusal.
 Import ListNotations.
 Open Scope Z_scope.
 
@@ -75,6 +75,20 @@ Theorem C03_srv17_is_tm : forall apid subservice stamp ssc src version ref dest,
   srv17_pack = tm_pack /\ srv17_unpack = tm_unpack.
 Proof. exact srv17_is_tm. Qed.
 Print Assumptions C03_srv17_is_tm.
+
+(* a primary-header field pushed out of range through the header object the telemetry packet hands
+   out (tm.space_packet_header.seq_count = 20000; no setter validates): every serialisation route
+   -- pack(), pack(recalc_crc=False), calc_crc(), to_space_packet().pack() -- refuses with ValueError,
+   nothing is encoded (C01's refusal clause seen through PusTm), and on the live object nothing changes *)
+Theorem C03_header_out_of_range_refused : forall t, ~ sph_in_range (tm_sph t) ->
+  tm_pack t = Err EValue /\ tm_pack_norecalc t = Err EValue /\ tm_calc_crc t = Err EValue /\
+  tm_to_space_packet_pack t = Err EValue /\ tm_view t = Err EValue.
+Proof. exact tm_header_out_of_range_refused. Qed.
+Print Assumptions C03_header_out_of_range_refused.
+Theorem C03_live_header_out_of_range_refused : forall t0 t o,
+  ~ sph_in_range (tm_sph t) -> tmx_serialises o -> tmx_step t0 t o = (t, Err EValue).
+Proof. exact tmx_header_out_of_range_refused. Qed.
+Print Assumptions C03_live_header_out_of_range_refused.
 
 Example C03_args_valid_inhabited :
   tm_args_valid 17 2 2047 16383 65535 15 65535 7 [1; 2; 3; 4; 5; 6; 7] [9; 255].
